@@ -220,24 +220,41 @@ def r2_lossy_ins(c, facts):
             sites.setdefault((base, name, short_ty(mt)), []).append(t['ln'])
     c.floor(R, 'functions scanned for output-map insertions', nfn, 100)
     c.floor(R, 'insertion sites classified', len(sites) + merging, 15)
+    # A row identifies a site by (function, map type); `collect`, `from_iter`, `extend` and a loop of `insert` are the same
+    # insertion written differently (index_mut is kept apart).  A row of a *safe* site whose function no longer has the
+    # site follows it into another function of the same crate (extract / merge method); rows that record a finding do
+    # not migrate: known findings suppress by exact key only.
+    cls = lambda n: 'index' if n == 'index_mut' else 'insert'
+    observed = {(b2, cls(n2), m2) for (b2, n2, m2) in sites} | {(b2, cls(n2), m2) for (b2, n2, m2) in auto_unique}
     for key, lines in sorted(sites.items()):
         base, name, mt = key
         row = TRIAGE.get(key)
+        rname = name
+        if row is None:
+            for (b2, n2, m2), r2 in TRIAGE.items():
+                if b2 == base and m2 == mt and cls(n2) == cls(name):
+                    row, rname = r2, n2
+        if row is None:
+            for (b2, n2, m2), r2 in TRIAGE.items():
+                if m2 == mt and cls(n2) == cls(name) and r2[1] != 'finding' and b2.split('::')[0] == base.split('::')[0] and (b2, cls(n2), m2) not in observed:
+                    row, rname = (r2[0], r2[1], r2[2] + ' (site moved from %s)' % b2.split('::')[-1]), n2
+        total = sum(len(v) for (b3, n3, m3), v in sites.items() if b3 == base and m3 == mt and cls(n3) == cls(name))
         inst = {'fn': base, 'api': name, 'map': mt, 'sites': len(lines), 'lines': lines}
         fshort = base.split('::')[-1]
-        if row is None or len(lines) > row[0]:
+        name_for_key = rname
+        if row is None or total > row[0]:
             c.bad(R, 'untriaged:%s:%s:%s' % (base, name, mt),
                   '%s inserts into %s with the overwriting API `%s` (%d site(s)) and is not a row of the triage table: a duplicate key silently drops a declaration (%s)'
                   % (base, mt, name, len(lines), facts.fn(base).loc() if facts.fn(base) else ''), **inst)
         elif row[1] == 'finding':
             inst['class'] = 'overwriting'
-            c.bad(R, 'overwrite:%s:%s' % (fshort, name), '%s: %s' % (base, row[2]), witness=FINDING_WITNESS.get(fshort), **inst)
+            c.bad(R, 'overwrite:%s:%s' % (fshort, name_for_key), '%s: %s' % (base, row[2]), witness=FINDING_WITNESS.get(fshort), **inst)
         else:
             inst['class'] = row[1]
             inst['reason'] = row[2]
             c.ok(R, inst)
             c.sample(inst)
-    stale = [k for k in TRIAGE if k not in sites and k not in auto_unique]
+    stale = [k for k in TRIAGE if (k[0], cls(k[1]), k[2]) not in observed]
     c.extra['triage_rows_not_observed'] = [list(k) for k in stale]
 
 
@@ -529,6 +546,77 @@ def or_chains(facts, fn):
     return chains
 
 
+def match_fallbacks(facts, fn):
+    """fallbacks written as a match / if-let instead of Option::or: [(first, second)] where the spec field `first` is tested
+    for presence and the spec field `second` is read only on its None edge"""
+    out = []
+
+    def spec_of(place):
+        fs = [(SPEC_OWNER.match(p.get('owner', '')).group(2), p['name']) for p in place.get('proj', [])
+              if p['p'] == 'field' and SPEC_OWNER.match(p.get('owner', ''))]
+        return '%s.%s' % fs[-1] if fs else None
+    for f2 in facts.family(fn, depth=1):
+        if not f2.mir:
+            continue
+        idx = MF.defs_index(f2)
+        reads = {}
+        for b, blk in f2.blocks():
+            for s in blk['stmts']:
+                if s['s'] != 'assign':
+                    continue
+                rv = s['rv']
+                for pl in ([rv['place']] if rv.get('place') else []) + [o for o in ([rv.get('op')] + list(rv.get('ops', []))) if o and 'proj' in o]:
+                    sp = spec_of(pl)
+                    if sp:
+                        reads.setdefault(sp, set()).add(b)
+            t = blk['term']
+            if t['t'] == 'call':
+                for a in t['args']:
+                    sp = spec_of(a) if 'proj' in a else None
+                    if sp:
+                        reads.setdefault(sp, set()).add(b)
+        # a field read inside a closure counts at the block where the closure is created
+        for b, blk in f2.blocks():
+            for s in blk['stmts']:
+                if s['s'] == 'assign' and s['rv']['r'] == 'aggr' and s['rv'].get('ak') == 'closure':
+                    cl = facts.fns.get(s['rv'].get('closure_id'))
+                    stack = [cl] if cl is not None else []
+                    while stack:
+                        x = stack.pop()
+                        stack.extend(facts.closures_of(x))
+                        for place, is_w in operand_places(x):
+                            sp = spec_of(place)
+                            if sp:
+                                reads.setdefault(sp, set()).add(b)
+        for b, blk in f2.blocks():
+            sw = blk['term']
+            if sw['t'] != 'switch' or 'l' not in sw['discr']:
+                continue
+            tested = None
+            for s in blk['stmts']:
+                if s['s'] == 'assign' and s['place']['l'] == sw['discr']['l'] and s['rv']['r'] == 'discr':
+                    pl = s['rv']['place']
+                    tested = spec_of(pl)
+                    if tested is None:
+                        # discriminant of a local holding (a reference to) the field
+                        for l in MF.slice_back(f2, pl['l'], idx, through_calls=True)['locals']:
+                            for kind, bi, d in idx.get(l, []):
+                                if kind == 'assign' and (d['rv'].get('place') or d['rv'].get('op')) is not None:
+                                    sp = spec_of(d['rv'].get('place') or d['rv'].get('op'))
+                                    tested = tested or sp
+            if not tested:
+                continue
+            ee = P.enum_edges(sw)
+            if '0' not in ee or '1' not in ee:
+                continue
+            for second, blks in reads.items():
+                if second == tested:
+                    continue
+                if all(f2.dominates(ee['0'], x) for x in blks):
+                    out.append((tested, second))
+    return out
+
+
 def r7_fallback_order(c, facts):
     R = c.rule('C02.R7', 'FALLBACK-ORDER: when two places can supply one document field, the language\'s precedence is kept')
     for q, fld, want, why in FALLBACKS:
@@ -543,6 +631,10 @@ def r7_fallback_order(c, facts):
             chains = or_chains(facts, f2)
             hit = [ch for ch in chains if want[0] in ch[0] and want[1] in ch[1]]
             rev = [ch for ch in chains if want[1] in ch[0] and want[0] in ch[1]]
+            if not (hit or rev):
+                mf = match_fallbacks(facts, f2)
+                hit = [m for m in mf if m == (want[0], want[1])]
+                rev = [m for m in mf if m == (want[1], want[0])]
             if hit or rev:
                 where = f2.qname
                 break
